@@ -159,6 +159,48 @@ func constBounds(v ssa.Value, facts []Atom, depth int) (lo, hi int64, hasLo, has
 			}
 		}
 	}
+	// result of a repository helper: the bounds that hold at every return of the helper
+	if !l.isLen && depth < 4 && (!hasLo || !hasHi) {
+		var call *ssa.Call
+		idx := 0
+		switch x := l.base.(type) {
+		case *ssa.Extract:
+			call, _ = x.Tuple.(*ssa.Call)
+			idx = x.Index
+		case *ssa.Call:
+			call = x
+		}
+		if call != nil {
+			if h := staticCallee(call.Common()); h != nil && h.Blocks != nil {
+				allLo, allHi, first := true, true, true
+				var mlo, mhi int64
+				for _, r := range returnsOf(h) {
+					if idx >= len(r.Results) {
+						allLo, allHi = false, false
+						break
+					}
+					elo, ehi, eHasLo, eHasHi := constBounds(retOperand(r, idx), factsAt(r.Block()), depth+1)
+					if !eHasLo {
+						allLo = false
+					} else if first || elo < mlo {
+						mlo = elo
+					}
+					if !eHasHi {
+						allHi = false
+					} else if first || ehi > mhi {
+						mhi = ehi
+					}
+					first = false
+				}
+				if !first && allLo && !hasLo {
+					lo, hasLo = mlo+l.off, true
+				}
+				if !first && allHi && !hasHi {
+					hi, hasHi = mhi+l.off, true
+				}
+			}
+		}
+	}
 	if phi, ok := l.base.(*ssa.Phi); ok && !l.isLen && depth < 4 && (!hasLo || !hasHi) {
 		allLo, allHi := true, true
 		var mlo, mhi int64
@@ -192,6 +234,13 @@ func constBounds(v ssa.Value, facts []Atom, depth int) (lo, hi int64, hasLo, has
 
 // wireTaint computes the values data-dependent on numbers parsed from the wire inside the scope.
 func wireTaint(scope []*ssa.Function) (map[ssa.Value]bool, []*ssa.Call) {
+	t, src, _ := wireTaintN(scope)
+	return t, src
+}
+
+// wireTaintN also returns the number of distinct entry points of wire numbers: conversion sites,
+// plus the call sites of helpers that return a wire number, minus those forwarding helpers.
+func wireTaintN(scope []*ssa.Function) (map[ssa.Value]bool, []*ssa.Call, int) {
 	inScope := map[*ssa.Function]bool{}
 	for _, f := range scope {
 		inScope[f] = true
@@ -199,6 +248,8 @@ func wireTaint(scope []*ssa.Function) (map[ssa.Value]bool, []*ssa.Call) {
 	t := map[ssa.Value]bool{}
 	var sources []*ssa.Call
 	var work []ssa.Value
+	forwards := map[*ssa.Function]bool{}
+	extra := 0
 	add := func(v ssa.Value) {
 		if v != nil && !t[v] {
 			t[v] = true
@@ -251,6 +302,44 @@ func wireTaint(scope []*ssa.Function) (map[ssa.Value]bool, []*ssa.Call) {
 						}
 					}
 				}
+			case *ssa.Return:
+				// a helper returning a wire number: its results at every call site inside the scope
+				helper := x.Parent()
+				for i, rv := range x.Results {
+					if rv != v || !isIntType(rv.Type()) {
+						continue
+					}
+					if !forwards[helper] {
+						forwards[helper] = true
+						extra--
+					}
+					for _, g := range scope {
+						allInstrs(g, func(ins ssa.Instruction) {
+							cl, ok := ins.(*ssa.Call)
+							if !ok || staticCallee(cl.Common()) != helper {
+								return
+							}
+							if len(x.Results) == 1 {
+								if !t[cl] {
+									extra++
+								}
+								add(cl)
+								return
+							}
+							if cl.Referrers() == nil {
+								return
+							}
+							for _, rr := range *cl.Referrers() {
+								if ex, ok := rr.(*ssa.Extract); ok && ex.Index == i {
+									if !t[ex] {
+										extra++
+									}
+									add(ex)
+								}
+							}
+						})
+					}
+				}
 			case ssa.CallInstruction:
 				callee := staticCallee(x.Common())
 				if callee != nil && inScope[callee] {
@@ -263,7 +352,7 @@ func wireTaint(scope []*ssa.Function) (map[ssa.Value]bool, []*ssa.Call) {
 			}
 		}
 	}
-	return t, sources
+	return t, sources, len(sources) + extra
 }
 
 // ---------------------------------------------------------------------------------------
@@ -299,8 +388,8 @@ func scopeSet(scope []*ssa.Function) map[*ssa.Function]bool {
 func ruleWireBounds(c *Ctx, scope []*ssa.Function) {
 	rid := "R06.a"
 	c.rule(rid, "A7+A2: values derived (def-use, through calls inside the parser) from strconv.Atoi/ParseInt results are (1) bounded below and above by constants, from dominating branch facts, at every arithmetic instruction on them, with the result inside the int range of the target; (2) bounded (0 <= size <= constant) at every make([]T, n)/make(map, n)/Buffer.Grow that they size")
-	taint, sources := wireTaint(scope)
-	c.count("wire-number-sources", len(sources))
+	taint, _, nsrc := wireTaintN(scope)
+	c.count("wire-number-sources", nsrc)
 	c.floor("wire-number-sources", 2)
 	sset := scopeSet(scope)
 	intMax := int64(1<<63 - 1)
@@ -537,13 +626,15 @@ func ruleNoAbsentElements(c *Ctx, rid string, scope []*ssa.Function) {
 			// find the filling loop: stores through IndexAddr(mk, counter)
 			var loop *Loop
 			var counter *ssa.Phi
+			var slotOff int64 // the slot written is counter+slotOff (0: classic loop; 1: lowered range loop)
 			for _, l := range naturalLoops(f) {
 				for b := range l.Blocks {
 					for _, i2 := range b.Instrs {
 						if s, ok := i2.(*ssa.Store); ok {
 							if ia, ok := s.Addr.(*ssa.IndexAddr); ok && ia.X == mk {
-								if ph, ok := ia.Index.(*ssa.Phi); ok {
-									loop, counter = l, ph
+								il := linOf(ia.Index)
+								if ph, ok := il.base.(*ssa.Phi); ok && !il.isLen && l.Blocks[ph.Block()] {
+									loop, counter, slotOff = l, ph, il.off
 								}
 							}
 						}
@@ -563,7 +654,7 @@ func ruleNoAbsentElements(c *Ctx, rid string, scope []*ssa.Function) {
 				init0 := false
 				step1 := false
 				for _, e := range counter.Edges {
-					if c0, ok := constInt(e); ok && c0 == 0 {
+					if c0, ok := constInt(e); ok && c0+slotOff == 0 {
 						init0 = true
 					}
 					if l := linOf(e); l.base == ssa.Value(counter) && l.off == 1 {
@@ -582,8 +673,8 @@ func ruleNoAbsentElements(c *Ctx, rid string, scope []*ssa.Function) {
 					// counter exit?
 					isCounterExit := false
 					for _, iq := range ineqsOf(edgeFacts(b, idx)) {
-						// len <= counter
-						if sameBase(iq.x, lenLin) && iq.y.base == ssa.Value(counter) && iq.x.off-lenLin.off <= iq.y.off {
+						// len + a <= counter + b with b - a <= slotOff: every slot below len was written
+						if sameBase(iq.x, lenLin) && iq.y.base == ssa.Value(counter) && !iq.y.isLen && iq.y.off-(iq.x.off-lenLin.off) <= slotOff {
 							isCounterExit = true
 						}
 					}
@@ -834,6 +925,12 @@ func ruleParserTermination(c *Ctx, scope []*ssa.Function) {
 	}
 	guarded := false
 	var names []string
+	inCyc := scopeSet(cyc)
+	// a helper outside the cycle that performs a blocking read on every path to its return
+	isReadHelper := func(rd *ssa.Call) bool {
+		h := staticCallee(rd.Common())
+		return h != nil && !inCyc[h] && ps.blocking[h]
+	}
 	for _, f := range cyc {
 		names = append(names, fnName(f))
 		// all calls from f into the cycle dominated by a blocking read in f
@@ -847,7 +944,7 @@ func ruleParserTermination(c *Ctx, scope []*ssa.Function) {
 			any = true
 			dom := false
 			allInstrs(f, func(ins ssa.Instruction) {
-				if rd, ok := ins.(*ssa.Call); ok && nameIn(calleeName(rd.Common()), blockingReadNames...) {
+				if rd, ok := ins.(*ssa.Call); ok && (nameIn(calleeName(rd.Common()), blockingReadNames...) || isReadHelper(rd)) {
 					if rd.Block() == cl.Block() {
 						for _, i2 := range rd.Block().Instrs {
 							if i2 == rd {
